@@ -114,6 +114,10 @@ class External:
         return isinstance(o, External) and o.name == self.name
 
 
+class HostObject:
+    """Base class for host (analysis-side) stand-in objects handed to interpreted code; attributes via Python getattr."""
+
+
 class SuperProxy:
     def __init__(self, obj, after: ClassInfo):
         self.obj = obj
@@ -450,6 +454,11 @@ class Interp:
                 raise InterpError("AttributeError", f"'{type(v).__name__}' object has no attribute '{attr}'")
         if v is None:
             raise InterpError("AttributeError", f"'NoneType' object has no attribute '{attr}'")
+        if isinstance(v, HostObject):
+            try:
+                return getattr(v, attr)
+            except AttributeError:
+                raise InterpError("AttributeError", f"host object has no attribute '{attr}'")
         if isinstance(v, (FuncVal, BoundMethod)):
             if attr == "__name__":
                 return getattr((v.func if isinstance(v, BoundMethod) else v).node, "name", "lambda")
@@ -668,7 +677,9 @@ class Interp:
             c[k] = v
         elif isinstance(c, (list, dict)):
             try:
-                c[simplify(k) if not isinstance(k, (str, tuple, EnumVal)) else k] = v
+                if isinstance(c, list):
+                    k = self._index_value(k)
+                c[simplify(k) if not isinstance(k, (str, tuple, EnumVal, slice)) else k] = v
             except (IndexError, KeyError, TypeError) as e:
                 raise InterpError(type(e).__name__, str(e))
         else:
@@ -1035,6 +1046,8 @@ class Interp:
             return slice(self._index_value(k.start), self._index_value(k.stop), self._index_value(k.step))
         if isinstance(k, STensor):
             k = k.item()
+        if isinstance(k, EnumVal) and isinstance(k.value, int):
+            return k.value
         k = simplify(k)
         if isinstance(k, Fraction) and k.denominator == 1:
             return int(k)
@@ -1178,6 +1191,21 @@ class Interp:
                         d[k] = v
             d.update(kwargs)
             return d
+        if fn in (_min, _max) and len(args) > 1:
+            vals = list(args)
+            best = vals[0]
+            for x in vals[1:]:
+                if self.compare(ast.Lt() if fn is _min else ast.Gt(), x, best, node):
+                    best = x
+            return best
+        if fn is _enumerate:
+            start = kwargs.get("start", args[1] if len(args) > 1 else 0)
+            return list(enumerate(list(self.iterate(args[0], node)), start))
+        if fn is _sum:
+            acc = args[1] if len(args) > 1 else 0
+            for x in self.iterate(args[0], node):
+                acc = self.binop(ast.Add(), acc, x, node)
+            return acc
         seqs = [list(self.iterate(a, node)) for a in args]
         if fn is _any:
             return any(self.truth(x, node) for x in seqs[0])
